@@ -1,4 +1,311 @@
-(* PLACEHOLDER while the pipeline is brought up; replaced by the real statements *)
-From PM Require Import Base.Bytes Model.Cbuf Model.Telnet Spec.Fifo Spec.TelnetSpec.
-Example C09_pipeline_placeholder : Cbuf.used (Cbuf.flush (Cbuf.mk 0 0 0 0 0 Cbuf.WRAP_MANY false 0 0 0 nil)) = 0%Z.
+(* C09 - scripts see the device's bytes unaltered, in order, once.
+
+   Models:  Model/Cbuf.v   = src/liblsd/cbuf.c (index arithmetic, wrap, cbuf_grow, WRAP_MANY overwrite), tied by R-CBUF
+            Model/Telnet.v = _telnet_preprocess (dev, nread) of device_tcp.c (with the F13 repair), _handle_read,
+                             _handle_write, _disconnect, _getregex_buf of device.c, tied by R-TEL / R-DEVIO
+   Specs:   Spec/Fifo.v       a bounded queue on plain lists (fifo_step / fifo_run)
+            Spec/TelnetSpec.v a whole-stream decoder (parse / data / replies)
+   Every theorem below is closed under the global context (see the Print Assumptions output). *)
+From Coq Require Import List ZArith NArith Bool.
+From PM Require Import Base.Bytes Gen.GenConsts Gen.GenCbuf Model.Cbuf Model.Telnet Spec.Fifo Spec.TelnetSpec
+  Proofs.CbufInv Proofs.CbufStep Proofs.CbufDelivery
+  Proofs.TelnetProofs Proofs.TelnetDevice Proofs.TelnetRun Proofs.TelnetView.
+Import ListNotations.
+Local Open Scope Z_scope.
+
+(* ================================================================================================ (a) cbuf.c *)
+(* For every minsize / maxsize and EVERY list of operations (write, write_from_fd with any short counts / EAGAIN /
+   EOF, peek, drop, read, peek_line, read_line, read_to_fd with any short writes / errors, flush, used) on a buffer
+   fresh from cbuf_create - across growth (cbuf_grow's relocation of the wrapped tail) and index wrap-around -
+   the C predicate cbuf_is_valid holds at the end (hence, ops being arbitrary, after every prefix), `used` is the
+   length of the abstract queue, the queue never exceeds max(minsize, maxsize), and every return value, every byte
+   delivered and every dropped count is what the list queue Spec/Fifo.v yields. *)
+Theorem C09_cbuf_refines : forall mn mx cb0 ops cb outs,
+  Cbuf.create mn mx = Some cb0 -> Cbuf.run cb0 ops = (cb, outs) ->
+  Cbuf.is_valid cb = true /\ cb_used cb = qlen (Cbuf.abs cb) /\ qlen (Cbuf.abs cb) <= Z.max mn mx
+  /\ fifo_run (Z.max mn mx) [] ops outs (Cbuf.abs cb).
+Proof. exact cbuf_refines_fifo. Qed.
+Print Assumptions C09_cbuf_refines.
+
+(* non-vacuity: a history on a 4..12 byte buffer that grows (4 -> 12), wraps (i_in < i_out with unread data),
+   takes a short read from a descriptor, delivers through short writes and overwrites 2 bytes *)
+Example C09_cbuf_refines_ex :
+  match Cbuf.create 4 12 with
+  | Some cb0 =>
+      match Cbuf.run cb0 (firstn 7 ex_ops), Cbuf.run cb0 ex_ops with
+      | (cb1, _), (cb, outs) =>
+          cb_size cb0 = 4 /\ cb_size cb1 = 12 /\ cb_i_in cb1 = 3 /\ cb_i_out cb1 = 1 /\ cb_used cb1 = 2
+          /\ Cbuf.abs cb1 = [7; 8]%N
+          /\ map o_ret outs = [3; 2; 3; 2; 3; 1; 3; 12; 12; 1; 0; 0]
+          /\ map o_dropped outs = [0; 0; 0; 0; 0; 0; 0; 2; 0; 0; 0; 0]
+          /\ Cbuf.is_valid cb = true
+      end
+  | None => False
+  end.
+Proof. vm_compute. repeat split; reflexivity. Qed.
+
+(* the same from any state that satisfies the representation invariant (Inv = cbuf_is_valid + the array has size+1
+   slots + alloc = size + overhead; mode WRAP_MANY, the only one powerman uses) *)
+Theorem C09_cbuf_refines_from : forall ops cb cb' outs,
+  Rep cb -> Cbuf.run cb ops = (cb', outs) ->
+  Rep cb' /\ cb_maxsize cb' = cb_maxsize cb /\ fifo_run (cb_maxsize cb) (Cbuf.abs cb) ops outs (Cbuf.abs cb').
+Proof. exact run_refines. Qed.
+Print Assumptions C09_cbuf_refines_from.
+
+Example C09_cbuf_refines_from_ex : exists cb, Cbuf.create 1024 65536 = Some cb /\ Rep cb.
+Proof. eexists. split; [reflexivity|]. eapply (create_Rep 1024 65536). reflexivity. Qed.
+
+(* while used + n <= maxsize a write loses nothing: the lost-byte counter is 0 and the queue is extended *)
+Theorem C09_no_loss_within_capacity : forall cb bs cb' n d,
+  Rep cb -> cb_used cb + zlen bs <= cb_maxsize cb -> Cbuf.write cb bs = (cb', n, d) ->
+  Rep cb' /\ n = zlen bs /\ d = 0 /\ Cbuf.abs cb' = Cbuf.abs cb ++ bs.
+Proof. exact write_within_capacity. Qed.
+Print Assumptions C09_no_loss_within_capacity.
+
+(* ... and a read from the descriptor appends exactly the bytes w that left the descriptor *)
+Theorem C09_no_loss_from_fd : forall cb fd len cb' n d fd',
+  Rep cb -> Cbuf.write_from_fd cb fd len = (cb', n, d, fd') ->
+  exists w, fd_bytes fd = w ++ fd_bytes fd' /\ Rep cb' /\ (0 < zlen w -> n = zlen w) /\ (zlen w = 0 -> n <= 0)
+    /\ (cb_used cb + zlen w <= cb_maxsize cb -> d = 0 /\ Cbuf.abs cb' = Cbuf.abs cb ++ w).
+Proof. exact write_from_fd_within_capacity. Qed.
+Print Assumptions C09_no_loss_from_fd.
+
+Example C09_no_loss_ex :
+  match Cbuf.create 4 12 with
+  | Some cb0 =>
+      match Cbuf.write cb0 [1;2;3]%N with
+      | (cb1, n1, d1) =>
+          match Cbuf.drop cb1 2 with
+          | (cb2, _) =>
+              match Cbuf.write_from_fd cb2 [FdData [4;5;6;7;8;9]%N] 6 with
+              | (cb3, n3, d3, fd') =>
+                  n1 = 3 /\ d1 = 0 /\ n3 = 6 /\ d3 = 0 /\ fd' = [] /\ Cbuf.abs cb3 = [3;4;5;6;7;8;9]%N
+                  /\ (cb_used cb2 + 6 <=? cb_maxsize cb2) = true /\ cb_size cb2 = 4 /\ cb_size cb3 = 12
+              end
+          end
+      end
+  | None => False
+  end.
+Proof. vm_compute. repeat split; reflexivity. Qed.
+
+(* ============================================================================== (b) in order, exactly once *)
+(* Ledger of a history (Proofs/CbufDelivery.v): lg_in = every byte that entered the buffer since the last flush
+   (cbuf_write: the caller's bytes; cbuf_write_from_fd: the bytes that left the descriptor), lg_out = every byte
+   that left it to a consumer (read, read_to_fd: the bytes delivered; drop / read_line: the bytes a peek shows
+   just before), lg_lost = sum of the *ndropped reports.  For every history, whatever the descriptors' short
+   counts: while nothing was reported lost,  delivered ++ unread = entered. *)
+Theorem C09_delivery : forall mn mx cb0 ops cb lg,
+  Cbuf.create mn mx = Some cb0 -> lrun cb0 (mkLg [] [] 0) ops = (cb, lg) ->
+  0 <= lg_lost lg /\ (lg_lost lg = 0 -> lg_out lg ++ Cbuf.abs cb = lg_in lg).
+Proof. exact delivery_in_order_once. Qed.
+Print Assumptions C09_delivery.
+
+Example C09_delivery_ex :
+  match Cbuf.create 4 12 with
+  | Some cb0 =>
+      match lrun cb0 (mkLg [] [] 0) (firstn 7 ex_ops) with
+      | (cb, lg) => lg = mkLg [1;2;3;4;5;6;7;8]%N [1;2;3;4;5;6]%N 0 /\ Cbuf.abs cb = [7;8]%N
+      end
+  | None => False
+  end.
+Proof. vm_compute. repeat split; reflexivity. Qed.
+
+Theorem C09_delivery_from : forall cb lg ops cb' lg',
+  Rep cb -> lg_out lg ++ Cbuf.abs cb = lg_in lg -> lrun cb lg ops = (cb', lg') ->
+  lg_lost lg <= lg_lost lg' /\ (lg_lost lg' = lg_lost lg -> lg_out lg' ++ Cbuf.abs cb' = lg_in lg').
+Proof. exact delivery_from. Qed.
+Print Assumptions C09_delivery_from.
+
+Example C09_delivery_from_ex :
+  match Cbuf.create 4 12 with
+  | Some cb0 =>
+      match Cbuf.write cb0 [1;2;3]%N with
+      | (cb, _, _) => lg_out (mkLg [1;2;3]%N [] 0) ++ Cbuf.abs cb = lg_in (mkLg [1;2;3]%N [] 0)
+      end
+  | None => False
+  end.
+Proof. vm_compute. reflexivity. Qed.
+
+(* the write side (daemon -> device, daemon -> client): text queued with cbuf_write and flushed by
+   cbuf_read_to_fd under ARBITRARY accept scripts (short writes, EAGAIN/-1, zero) reaches the descriptor exactly
+   once and in order; what has not been accepted yet is still queued *)
+Theorem C09_write_side : forall mn mx cb0 ops cb outs,
+  Cbuf.create mn mx = Some cb0 -> forallb is_write_side ops = true -> Cbuf.run cb0 ops = (cb, outs) ->
+  qlen (queued ops) <= Z.max mn mx ->
+  accepted outs ++ Cbuf.abs cb = queued ops.
+Proof. exact write_side_in_order_once. Qed.
+Print Assumptions C09_write_side.
+
+Example C09_write_side_ex :
+  match Cbuf.create 4 12 with
+  | Some cb0 =>
+      match Cbuf.run cb0 [OWrite [1;2;3;4;5]%N; OReadFd [2; -1; 1] (-1); OWrite [6;7;8;9]%N; OReadFd [0] (-1); OReadFd [3;100] (-1); OReadFd [] (-1)] with
+      | (cb, outs) =>
+          map o_ret outs = [5; 2; 4; 0; 3; 4] /\ accepted outs = [1;2;3;4;5;6;7;8;9]%N /\ Cbuf.abs cb = []
+      end
+  | None => False
+  end.
+Proof. vm_compute. repeat split; reflexivity. Qed.
+
+(* ==================================================================================== (c) the telnet filter *)
+(* the specification decoder is compositional (so "independent of the split into reads" is true of it by
+   construction) and, started in DNone, is the whole-stream grammar TelnetSpec.parse *)
+Theorem C09_telnet_spec_compositional : forall a st b,
+  decode st (a ++ b) =
+  match decode st a with
+  | (st1, d1, a1) => match decode st1 b with (st2, d2, a2) => (st2, d1 ++ d2, a1 ++ a2) end
+  end.
+Proof. exact decode_app. Qed.
+Print Assumptions C09_telnet_spec_compositional.
+
+Example C09_telnet_spec_ex :
+  parse [97; 255; 255; 255; 253; 3; 98; 255; 241; 0; 255; 253; 24; 255]%N
+  = ([97; 255; 98; 0]%N, [255; 251; 3; 255; 252; 24]%N).
 Proof. reflexivity. Qed.
+
+(* _telnet_preprocess (dev, nread) on the level of buffer contents: for EVERY way of cutting a stream into reads
+   and EVERY interleaved consumption by expects, what was consumed followed by what is still unread is the data
+   of the whole stream (IAC sequences removed, IAC IAC -> 0xFF) and the queued answers are its replies *)
+Theorem C09_telnet_filter : forall evs,
+  let s := fold_left lstep evs linit in
+  l_consumed s ++ l_content s = data (stream_of evs) /\ l_replies s = replies (stream_of evs).
+Proof. exact telnet_all_chunkings. Qed.
+Print Assumptions C09_telnet_filter.
+
+Theorem C09_telnet_chunking_independent : forall evs1 evs2,
+  stream_of evs1 = stream_of evs2 ->
+  let s1 := fold_left lstep evs1 linit in
+  let s2 := fold_left lstep evs2 linit in
+  l_consumed s1 ++ l_content s1 = l_consumed s2 ++ l_content s2 /\ l_replies s1 = l_replies s2.
+Proof. exact telnet_chunking_independent. Qed.
+Print Assumptions C09_telnet_chunking_independent.
+
+Example C09_telnet_chunking_independent_ex :
+  let e1 := [Read [255]%N; Read [255; 120]%N; Consume 1; Read [0; 255]%N; Read [253]%N; Read [3; 121]%N] in
+  let e2 := [Read [255; 255; 120; 0; 255; 253; 3; 121]%N; Consume 3] in
+  stream_of e1 = stream_of e2
+  /\ (let s := fold_left lstep e1 linit in (l_consumed s, l_content s, l_replies s)) = ([255]%N, [120; 0; 121]%N, [255; 251; 3]%N)
+  /\ (let s := fold_left lstep e2 linit in (l_consumed s, l_content s, l_replies s)) = ([255; 120; 0]%N, [121]%N, [255; 251; 3]%N).
+Proof. vm_compute. repeat split; reflexivity. Qed.
+
+(* the two F13 witnesses, on the repaired filter: (i) a restored 0xFF is not read again as IAC by the next pass;
+   (ii) a command split across reads is not applied to old unread bytes *)
+Example C09_telnet_filter_ex :
+  (let s := fold_left lstep [Read [255; 255; 120]%N; Read [121]%N] linit in
+   l_content s = [255; 120; 121]%N /\ l_replies s = [])
+  /\ (let s := fold_left lstep [Read [97; 98; 99; 255]%N; Read [253; 1]%N; Consume 2; Read [122]%N] linit in
+      l_consumed s = [97; 98]%N /\ l_content s = [99; 122]%N /\ l_replies s = [255; 252; 1]%N).
+Proof. vm_compute. repeat split; reflexivity. Qed.
+
+(* the same on a Device with REAL circular buffers (dev->from, dev->to), POLLIN events whose descriptor returns
+   whatever it returns (full, short, EAGAIN, EOF), consumption by expects and POLLOUT events with short writes:
+   while the unconsumed data and the unanswered replies stay within capacity (r_within), consumed ++ unread is the
+   decoding of exactly the bytes taken from the descriptor, delivered ++ queued are its replies, and the filter
+   never saw a short cbuf_write / cbuf_drop *)
+Theorem C09_telnet : forall mn mx d evs,
+  dev_create mn mx = Some d -> Z.max mn mx <= MAX_DEV_BUF ->
+  let st := fold_left rstep evs (rinit d) in
+  r_within st = true ->
+  r_consumed st ++ Cbuf.abs (d_from (r_dev st)) = data (r_taken st)
+  /\ r_delivered st ++ Cbuf.abs (d_to (r_dev st)) = replies (r_taken st)
+  /\ d_errs (r_dev st) = 0.
+Proof. exact telnet_device_run. Qed.
+Print Assumptions C09_telnet.
+
+Example C09_telnet_ex :
+  match dev_create 8 32 with
+  | Some d =>
+      let st := fold_left rstep ex_evs (rinit d) in
+      (Z.max 8 32 <=? MAX_DEV_BUF) = true
+      /\ r_within st = true /\ r_taken st = [97; 255; 255; 255; 253; 3; 98; 0; 255]%N
+      /\ r_consumed st = [97]%N /\ Cbuf.abs (d_from (r_dev st)) = [255; 98; 0]%N
+      /\ r_delivered st = [255; 251]%N /\ Cbuf.abs (d_to (r_dev st)) = [3]%N
+      /\ t_state (d_tcp (r_dev st)) = TELNET_CMD
+  | None => False
+  end.
+Proof. vm_compute. repeat split; reflexivity. Qed.
+
+(* the buffers dev_create really makes (cbuf_create (MIN_DEV_BUF, MAX_DEV_BUF), constants regenerated from device.c)
+   satisfy the size hypothesis: the static peek[] / device[] arrays of _telnet_preprocess hold a full buffer *)
+Example C09_telnet_real_sizes :
+  (exists d, dev_create MIN_DEV_BUF MAX_DEV_BUF = Some d) /\ Z.max MIN_DEV_BUF MAX_DEV_BUF <= MAX_DEV_BUF.
+Proof. split; [eexists; reflexivity | vm_compute; discriminate]. Qed.
+
+(* ====================================================================== (d) NUL presentation and reconnects *)
+(* _getregex_buf matches against the whole unread content with every NUL shown as 0xFF (nothing else changed,
+   same length), matches nothing on an empty buffer, and a match ending at offset m consumes the first m bytes *)
+Theorem C09_nul : forall b, Inv b ->
+  regex_subject b = if cb_used b =? 0 then None else Some (nul_to_ff (Cbuf.abs b)).
+Proof. exact regex_subject_spec. Qed.
+Print Assumptions C09_nul.
+
+Theorem C09_nul_pointwise : forall q i, (i < length q)%nat ->
+  length (nul_to_ff q) = length q
+  /\ nth i (nul_to_ff q) 0%N = (if N.eqb (nth i q 0%N) 0 then 255%N else nth i q 0%N).
+Proof. exact nul_to_ff_pointwise. Qed.
+Print Assumptions C09_nul_pointwise.
+
+Theorem C09_consume : forall b m b' r, Inv b -> 0 <= m <= cb_used b -> regex_consume b m = (b', r) ->
+  Inv b' /\ r = m /\ Cbuf.abs b' = fifo_drop (Cbuf.abs b) m /\ cb_used b' = cb_used b - m.
+Proof. exact regex_consume_spec. Qed.
+Print Assumptions C09_consume.
+
+Example C09_nul_ex :
+  match Cbuf.create 4 12 with
+  | Some cb0 =>
+      match Cbuf.write cb0 [111; 0; 107; 255; 0]%N with
+      | (cb, _, _) =>
+          match regex_consume cb 3 with
+          | (cb', r) =>
+              regex_subject cb = Some [111; 255; 107; 255; 255]%N /\ r = 3
+              /\ regex_subject cb' = Some [255; 255]%N /\ regex_subject cb0 = None
+          end
+      end
+  | None => False
+  end.
+Proof. vm_compute. repeat split; reflexivity. Qed.
+
+(* two connections in a row, the FIRST ONE ARBITRARY (it may overflow the buffers, end in the middle of a telnet
+   command, leave unread data and unsent replies): after _disconnect (flush of both buffers) and the next connect
+   (_telnet_init) a script sees exactly the decoding of the bytes of the second connection, nothing else *)
+Theorem C09_reconnect : forall mn mx d0 evs1 evs2,
+  dev_create mn mx = Some d0 -> Z.max mn mx <= MAX_DEV_BUF ->
+  let st1 := fold_left rstep evs1 (rinit d0) in
+  let st2 := fold_left rstep evs2 (rinit (disconnect (r_dev st1))) in
+  r_within st2 = true ->
+  r_consumed st2 ++ Cbuf.abs (d_from (r_dev st2)) = data (r_taken st2)
+  /\ r_delivered st2 ++ Cbuf.abs (d_to (r_dev st2)) = replies (r_taken st2)
+  /\ d_errs (r_dev st2) = d_errs (r_dev st1).
+Proof. exact telnet_reconnect. Qed.
+Print Assumptions C09_reconnect.
+
+Theorem C09_reconnect_clears : forall d, DevInv d ->
+  let d' := connected (disconnect d) in
+  Cbuf.abs (d_from d') = [] /\ Cbuf.abs (d_to d') = [] /\ cb_used (d_from d') = 0 /\ cb_used (d_to d') = 0
+  /\ d_tcp d' = telnet_init /\ regex_subject (d_from d') = None.
+Proof. exact reconnect_clears. Qed.
+Print Assumptions C09_reconnect_clears.
+
+Example C09_reconnect_clears_ex :
+  exists d0, dev_create 8 32 = Some d0 /\
+    let d := r_dev (fold_left rstep ex_evs (rinit d0)) in
+    DevInv d /\ Cbuf.abs (d_from d) = [255; 98; 0]%N /\ Cbuf.abs (d_to d) = [3]%N.
+Proof.
+  eexists. split; [reflexivity|]. cbv zeta. split.
+  - apply rrun_DevInv. apply (dev_create_spec 8 32); [reflexivity | vm_compute; discriminate].
+  - vm_compute. split; reflexivity.
+Qed.
+
+(* non-vacuity: the first connection ends with unread data, an unsent reply and a pending IAC; the second one
+   starts with a byte (DO = 253) that would be read as a command if the state had survived *)
+Example C09_reconnect_ex :
+  match dev_create 8 32 with
+  | Some d =>
+      let st1 := fold_left rstep ex_evs (rinit d) in
+      let st2 := fold_left rstep [DRead [FdData [253; 3; 107]%N]] (rinit (disconnect (r_dev st1))) in
+      Cbuf.abs (d_from (r_dev st1)) = [255; 98; 0]%N /\ Cbuf.abs (d_to (r_dev st1)) = [3]%N
+      /\ t_state (d_tcp (r_dev st1)) = TELNET_CMD
+      /\ r_within st2 = true /\ Cbuf.abs (d_from (r_dev st2)) = [253; 3; 107]%N /\ Cbuf.abs (d_to (r_dev st2)) = []
+  | None => False
+  end.
+Proof. vm_compute. repeat split; reflexivity. Qed.
